@@ -1,4 +1,11 @@
-# property table of the driver: which go test runs decide which property
+# property table of the driver: which go test runs decide which property.
+# Each engine contributes a fragment lib/props_<engine>.py defining
+#   PART = { "<ID>": { "runs": [ {name, pkg, run, tags?, race?, race_thorough?, timeout?, timeout_thorough?, env?, tier?} ],
+#                      "rule": "...", "assumptions": [...], "race_anchors": [...] } }
+# META below carries what MANIFEST.json needs per property. A property is claimed
+# (listed in MANIFEST.checks) iff it has at least one run and a META entry.
+import importlib, os, sys
+
 HARNESS_DIRS = {
     # harness dir -> (directory under /repo the files are overlaid into, package name)
     "pure": ("internal/chain", "chain_test"),
@@ -8,25 +15,35 @@ HARNESS_DIRS = {
     "http": ("handler/http", "http"),
 }
 
-PURE = "./internal/chain"
-BEACON = "./internal/chain/beacon"
-DKG = "./internal/dkg"
-CORE = "./internal/core"
-HTTP = "./handler/http"
-
-PROPS = {
-    "C16": {
-        "level": "exploration",
-        "rule": "points (period,genesis,instant) and (period,genesis,round) checked against a math/big reference: exhaustive small grid, "
-                "boundary-directed instants t=g+k*p+{-1,0,1} for k up to 2^50/p and p in {2^k-1,2^k,2^k+1}, rounds around the overflow guard "
-                "and the last schedulable round, plus seeded random points; non-trivial = grid/boundary/guard points, distinct by (p,g,t|r)",
-        "runs": [{"name": "pure", "pkg": PURE, "run": "^TestVF_C16$"}],
-        "assumptions": ["math/big arithmetic is the reference", "periods are whole seconds (as the system produces them)"],
-        "level_text": "every conversion result on ~4e5 (quick) / ~5e6 (thorough) generated points, incl. an exhaustive small grid and all boundary families, equals an unbounded-integer reference; held-on-what-was-explored, not a proof",
-        "level_note": "trusts math/big and the generator's boundary families; sub-second periods excluded (cannot be produced by the system)",
-        "technique": "runtime oracle: real functions vs math/big reference model on generated + boundary-directed inputs",
-    },
+PKG = {
+    "pure": "./internal/chain",
+    "beacon": "./internal/chain/beacon",
+    "dkg": "./internal/dkg",
+    "core": "./internal/core",
+    "http": "./handler/http",
 }
+
+from vfmeta import META  # noqa: E402
+
+PROPS = {}
+for frag in ("props_pure", "props_beacon", "props_dkg", "props_core", "props_http"):
+    try:
+        m = importlib.import_module(frag)
+    except ModuleNotFoundError:
+        continue
+    for pid, part in m.PART.items():
+        e = PROPS.setdefault(pid, {"runs": [], "rule": "", "assumptions": [], "race_anchors": []})
+        e["runs"] += part.get("runs", [])
+        if part.get("rule"):
+            e["rule"] = (e["rule"] + " || " if e["rule"] else "") + part["rule"]
+        e["assumptions"] += part.get("assumptions", [])
+        e["race_anchors"] += part.get("race_anchors", [])
+for pid in list(PROPS):
+    if pid not in META or not PROPS[pid]["runs"]:
+        PROPS[pid]["unclaimed"] = True
+        PROPS[pid].setdefault("level", "exploration")
+    else:
+        PROPS[pid].update(META[pid])
 
 NOT_APPLICABLE = {}
 HOOK_COMMITS = ["05c1df0a"]
